@@ -14,7 +14,7 @@ RULE = ("Hypothesis over the 'conventional' profile of DESIGN section 8 (1..2 re
         "YAML with each subset of the three mixin APIs with whole-API rule sets, add-iam-methods, retry config). Oracle: `pytest "
         "tests/unit` on the emitted tree in a fresh process exits 0 and its junit report has >= 1 test, zero failures, zero errors. "
         "Non-trivial: >= 3 of {get, list, create, update, delete, custom} on a resource; distinct = (option set, shape classes).")
-ASSUMPTIONS = ["conventional profile and exclusions E0/E1: DESIGN.md section 8", "ads templates and async REST are not part of the generated option sets (unexplored)"]
+ASSUMPTIONS = ["conventional profile and exclusions E0/E1: DESIGN.md section 8", "ads templates are not part of the generated option sets; async REST only together with gRPC (alone: finding F-async-rest-without-grpc)"]
 TESTS_TIMEOUT = 900
 
 
@@ -38,6 +38,11 @@ def _case(draw):
     if mix:
         opts["service_yaml"] = {"type": "google.api.Service", "config_version": 3, "name": "lib.acme.com",
                                 "apis": [{"name": a} for a in mix], "http": {"rules": [r for a in mix for r in CV.MIXIN_RULES[a]]}}
+    if t == "grpc+rest" and draw(st.integers(0, 3)) == 0:
+        # experimental asynchronous REST transport (with gRPC present; alone it is finding F-async-rest-without-grpc)
+        y = opts.setdefault("service_yaml", {"type": "google.api.Service", "config_version": 3, "name": "lib.acme.com"})
+        y["publishing"] = {"library_settings": [{"version": "acme.lib.v1", "python_settings": {"experimental_features": {"rest_async_io_enabled": True}}}]}
+        opts["async_rest"] = True
     if draw(st.integers(0, 3)) == 0:
         from harness import strategies as S
         opts["retry_config"] = draw(S.retry_configs(api))
@@ -52,7 +57,7 @@ def run_case(case, rec):
     api, options = case["api"], case["options"]
     kinds = sorted({re.match(r"[A-Z][a-z]+", m["name"]).group(0) for f in api["files"] for s in f["services"] for m in s["methods"]})
     classes = G.shape_classes(api)
-    rec.cls("transport:" + options["transport"])
+    rec.cls("transport:" + options["transport"] + ("+async-rest" if options.get("async_rest") else ""))
     for a in case["mixins"]:
         rec.cls("mixin:" + a.rsplit(".", 1)[-1])
     with common.scratch("c13") as d:
